@@ -202,6 +202,16 @@ pub fn check_link(case: &LinkCase) -> CaseResult {
             if i2 != i1 {
                 return Err(fail("entry-follow|swapped-twice", format!("{:?}", i2)));
             }
+            // a copy of a followed entry is the same followed entry: following it again changes nothing
+            let followed = e.clone().follow(true);
+            let copy = followed.clone();
+            if entry_info(&copy) != i1 {
+                return Err(fail("entry-follow|clone-of-followed-entry-differs", format!("{:?} vs {:?}", entry_info(&copy), i1)));
+            }
+            let i4 = entry_info(&copy.follow(true));
+            if i4 != i1 {
+                return Err(fail("entry-follow|swapped-twice", format!("clone of the followed entry, followed again: {:?}", i4)));
+            }
             let i3 = entry_info(&e.clone().follow(false));
             if i3 != i0 {
                 return Err(fail("entry-follow|follow-false-changed-entry", format!("{:?}", i3)));
